@@ -108,6 +108,20 @@ example : (HttpFull.serve Examples.hconf true Examples.broker2
     ⟨ascii "GET", ascii "/stats", ascii "format=json&include_mem=0&topic=b", 0, []⟩).1.body =
     .json (.stats [⟨ascii "b", false, 0, 0, []⟩] true false) := by decide
 
+/-- A `GET` never changes the broker (whatever path, query, body); nor does any request to a route other
+than the publish and admin endpoints (`/config` PUT included: it changes options, not topics). -/
+theorem get_never_changes_broker (hc : HConf) (healthy : Bool) (b : Broker) (rq : Request)
+    (hget : rq.method = ascii "GET") : (HttpFull.serve hc healthy b rq).2 = b :=
+  get_readonly hc healthy b rq hget
+
+theorem only_publish_and_admin_touch_the_broker (hc : HConf) (healthy : Bool) (b : Broker) (rq : Request)
+    (name : String) (hn : baseHandler name = none) : (runFull hc healthy b rq name).2 = b :=
+  admin_free_routes_readonly hc healthy b rq name hn
+
+example : (HttpFull.serve Examples.hconf true Examples.broker2
+    ⟨ascii "GET", ascii "/stats", ascii "format=json", 0, []⟩).2 = Examples.broker2 := by decide
+example : baseHandler "doConfig" = none := by decide
+
 /-! ## 4. `/config/:opt` -/
 
 /-- `PUT /config/log_level` on ASCII input is the case-insensitive comparison with the five words
